@@ -555,7 +555,7 @@ type c15Spec struct {
 
 type c15Harness struct{}
 
-var c15Kinds = []string{"trunc", "trunc", "byte", "byte", "u32max", "u32max", "u32zero", "u16max", "dup", "drop", "ins", "type", "magic", "lenfield", "lenfield", "resumeinfo", "resumeinfo", "frame", "frame", "frame"}
+var c15Kinds = []string{"trunc", "trunc", "byte", "byte", "u32max", "u32max", "u32zero", "u16max", "dup", "drop", "ins", "type", "magic", "lenfield", "lenfield", "resumeinfo", "resumeinfo", "frame", "frame", "frame", "manifestnum"}
 
 // c15Begins: the FileBegin records of the recorded run (context for the "frame" mutations).
 var c15Begins []wBegin
@@ -605,6 +605,9 @@ func (c15Harness) Gen(r *verifsim.SplitMix, tier string, idx int) any {
 		mu := c15Mut{Stream: r.Intn(3), Kind: c15Kinds[r.Intn(len(c15Kinds))], Pos: pos, Val: r.Intn(1 << 16)}
 		if mu.Kind == "frame" {
 			mu.Stream = 1 // the first data stream
+		}
+		if mu.Kind == "manifestnum" {
+			mu.Stream = 0
 		}
 		sp.Muts = append(sp.Muts, mu)
 	}
@@ -798,6 +801,32 @@ func applyMut(b []byte, m c15Mut, isControl, withHeader bool, r *verifsim.SplitM
 			}
 		}
 		return out, ""
+	case "manifestnum":
+		// the manifest stays well-formed JSON with a correct length prefix; one of its
+		// numbers is absurd (counts and sizes are the peer's claims, not facts)
+		if !isControl || !withHeader || len(b) < 8 {
+			return out, ""
+		}
+		n := int(binary.BigEndian.Uint32(b[4:8]))
+		if 8+n > len(b) {
+			return out, ""
+		}
+		var mm map[string]any
+		if json.Unmarshal(b[8:8+n], &mm) != nil {
+			return out, ""
+		}
+		field := []string{"file_count", "folder_count", "total_bytes", "file_count"}[m.Val%4]
+		val := []int64{500000, 300000000, -1, 1 << 40}[m.Val/4%4]
+		mm[field] = val
+		js, err := json.Marshal(mm)
+		if err != nil {
+			return out, ""
+		}
+		res := append([]byte(nil), b[:4]...)
+		res = binary.BigEndian.AppendUint32(res, uint32(len(js)))
+		res = append(res, js...)
+		res = append(res, b[8+n:]...)
+		return res, "manifestnum:" + field
 	case "frame":
 		// well-formed chunk frames (valid checksum) that do not fit the announced file
 		if isControl || len(c15Begins) == 0 {
